@@ -151,3 +151,12 @@ package decoder
 //@     set graw := len(r.Raw)
 //@   callee Exists(t) (r)
 //@     pure
+
+// NewJsonDecoder: cutFieldsBySize takes its locked path (d.mu.Lock()) exactly when
+// more than one field limit is configured, so the constructor must have made the
+// mutex whenever there are two or more entries - whatever their keys are.
+
+//@ func NewJsonDecoder
+//@   ensures result1 == nil ==> (len(as(result0, "jsonDecoder").params.maxFieldsSize) >= 2 ==> as(result0, "jsonDecoder").mu != nil)
+//@   callee extractJsonParams(p) (r, e)
+//@     pure
